@@ -32,6 +32,9 @@
 //!    (`tmp >>= 64`); 64-bit chunks are not used for amounts; counted under
 //!    `chunks.u64_to_chunks.panic_not_judged.64bit`;
 //!  * which verification error is returned;
+//!  * proof-shape perturbations are made by byte surgery on the serialized
+//!    transfer data (response counts of the accounting proof); a variant that
+//!    does not decode counts as rejected;
 //!  * a perturbed byte string that no longer decodes counts as rejected;
 //!  * panics are inconclusive.
 #![allow(deprecated)]
@@ -346,6 +349,56 @@ fn plus_gen(c: &Cipher<C>, which: usize) -> Cipher<C> {
     }
 }
 
+/// Byte surgery on the accounting sigma proof (challenge 32 | common response 32 |
+/// u32 n1 | n1 x 64 | u32 n2 | n2 x 64) that starts at `off` in serialized
+/// transfer data: change the *number* of responses of one part.
+/// Returns (name, bytes) for every shape perturbation; None if the layout is
+/// not the expected one.
+fn proof_shape_variants(db: &[u8], off: usize, expect1: u32, expect2: u32) -> Option<Vec<(&'static str, Vec<u8>)>> {
+    let rd = |at: usize| db.get(at..at + 4).map(|b| u32::from_be_bytes(b.try_into().unwrap()));
+    let l1 = off + 64;
+    let n1 = rd(l1)?;
+    let l2 = l1 + 4 + 64 * n1 as usize;
+    let n2 = rd(l2)?;
+    if n1 != expect1 || n2 != expect2 {
+        return None;
+    }
+    let end2 = l2 + 4 + 64 * n2 as usize;
+    // rebuild with new response vectors
+    let build = |r1: Vec<&[u8]>, r2: Vec<&[u8]>| {
+        let mut v = db[..l1].to_vec();
+        v.extend_from_slice(&(r1.len() as u32).to_be_bytes());
+        for x in &r1 {
+            v.extend_from_slice(x);
+        }
+        v.extend_from_slice(&(r2.len() as u32).to_be_bytes());
+        for x in &r2 {
+            v.extend_from_slice(x);
+        }
+        v.extend_from_slice(&db[end2..]);
+        v
+    };
+    let resp1: Vec<&[u8]> = (0..n1 as usize).map(|i| &db[l1 + 4 + 64 * i..l1 + 4 + 64 * (i + 1)]).collect();
+    let resp2: Vec<&[u8]> = (0..n2 as usize).map(|i| &db[l2 + 4 + 64 * i..l2 + 4 + 64 * (i + 1)]).collect();
+    let mut out = vec![];
+    let mut a = resp1.clone();
+    a.push(resp1[resp1.len() - 1]);
+    out.push(("shape.transfer_part.extra_response", build(a, resp2.clone())));
+    let mut b = resp2.clone();
+    b.push(resp2[0]);
+    out.push(("shape.remaining_part.extra_response", build(resp1.clone(), b)));
+    out.push(("shape.transfer_part.one_dropped", build(resp1[..resp1.len() - 1].to_vec(), resp2.clone())));
+    out.push(("shape.remaining_part.one_dropped", build(resp1.clone(), resp2[..resp2.len() - 1].to_vec())));
+    out.push(("shape.transfer_part.all_dropped", build(vec![], resp2.clone())));
+    out.push(("shape.remaining_part.all_dropped", build(resp1.clone(), vec![])));
+    let mut c = resp1.clone();
+    c.extend(resp2.iter().copied());
+    out.push(("shape.transfer_part.responses_of_both", build(c, resp2.clone())));
+    Some(out)
+}
+
+fn shifted(p: &C) -> C { p.plus_point(&C::one_point()) }
+
 fn case_transfer(j: &mut J, r: &mut Rng, cr: &mut CR, nperturb: usize) -> u64 {
     let f = fixture();
     let (sk_s, pk_s) = keypair(cr);
@@ -499,6 +552,30 @@ fn case_transfer(j: &mut J, r: &mut Rng, cr: &mut CR, nperturb: usize) -> u64 {
         };
         j.expect(&name, false, verify(&vr, &vs, &vb, &d), || dcase(&d, &name));
     }
+    // ---- every component of every public key, separately (always run)
+    for (name, vr, vs) in [
+        ("perturb.pk.sender.generator", pk_r, PublicKey { generator: shifted(&pk_s.generator), key: pk_s.key }),
+        ("perturb.pk.sender.key_point", pk_r, PublicKey { generator: pk_s.generator, key: shifted(&pk_s.key) }),
+        ("perturb.pk.receiver.generator", PublicKey { generator: shifted(&pk_r.generator), key: pk_r.key }, pk_s),
+        ("perturb.pk.receiver.key_point", PublicKey { generator: pk_r.generator, key: shifted(&pk_r.key) }, pk_s),
+        ("perturb.pk.receiver.generator_random", PublicKey { generator: C::generate(cr), key: pk_r.key }, pk_s),
+        ("perturb.pk.sender.generator_random", pk_r, PublicKey { generator: C::generate(cr), key: pk_s.key }),
+    ] {
+        j.expect(name, false, verify(&vr, &vs, &before, &data), || json!({"base": base.clone(), "perturbation": name, "receiver_pk_used": hex(&to_bytes(&vr)), "sender_pk_used": hex(&to_bytes(&vs)), "transfer_data": vmon_core::hex_short(&db, 4000)}));
+    }
+    // ---- shape of the accounting proof: number of responses per part (always run)
+    match proof_shape_variants(&db, 392, 2, 2) {
+        None => j.check("perturb.shape.layout", false, || ("serialized transfer data does not have the expected accounting-proof layout (2 + 2 responses)".into(), dcase(&data, "none"))),
+        Some(vs) => {
+            for (name, fb) in vs {
+                let key = format!("perturb.{}", name);
+                match from_bytes::<EncryptedAmountTransferData<C>, _>(&mut std::io::Cursor::new(&fb)) {
+                    Err(_) => j.sh.hit(&format!("{}.undecodable", key)),
+                    Ok(d2) => j.expect(&key, false, verify(&pk_r, &pk_s, &before, &d2), || dcase(&d2, &key)),
+                }
+            }
+        }
+    }
     // index field alone (documented as not proof-bound): counted
     {
         let mut d = data.clone();
@@ -635,7 +712,90 @@ fn case_sec_to_pub(j: &mut J, r: &mut Rng, cr: &mut CR, nperturb: usize) -> u64 
         };
         j.expect(&name, false, verify(&vk, &vb, &d), || dcase(&d, &name));
     }
+    for (name, vk) in [
+        ("perturb.s2p.pk.generator", PublicKey { generator: shifted(&pk.generator), key: pk.key }),
+        ("perturb.s2p.pk.key_point", PublicKey { generator: pk.generator, key: shifted(&pk.key) }),
+        ("perturb.s2p.pk.generator_random", PublicKey { generator: C::generate(cr), key: pk.key }),
+    ] {
+        j.expect(name, false, verify(&vk, &before, &data), || json!({"base": base.clone(), "perturbation": name, "pk_used": hex(&to_bytes(&vk)), "transfer_data": vmon_core::hex_short(&db, 4000)}));
+    }
+    match proof_shape_variants(&db, 208, 1, 2) {
+        None => j.check("perturb.s2p.shape.layout", false, || ("serialized secret-to-public data does not have the expected accounting-proof layout (1 + 2 responses)".into(), dcase(&data, "none"))),
+        Some(vs) => {
+            for (name, fb) in vs {
+                let key = format!("perturb.s2p.{}", name);
+                match from_bytes::<SecToPubAmountTransferData<C>, _>(&mut std::io::Cursor::new(&fb)) {
+                    Err(_) => j.sh.hit(&format!("{}.undecodable", key)),
+                    Ok(d2) => j.expect(&key, false, verify(&vk_honest(&pk), &before, &d2), || dcase(&d2, &key)),
+                }
+            }
+        }
+    }
     vmon_core::fnv(&db)
+}
+
+fn vk_honest(pk: &PublicKey<C>) -> PublicKey<C> { *pk }
+
+/// Baby-step-giant-step with tables whose size is not a power of two (the
+/// repository's benchmarks use 60000 and 71583): discrete_log(base^v) == v for
+/// values below, at and above the table size; decrypt_amount with such a table.
+fn case_bsgs(j: &mut J, r: &mut Rng, cr: &mut CR, big: bool) -> u64 {
+    let f = fixture();
+    let base = if r.chance(1, 2) { *f.ctx.encryption_in_exponent_generator() } else { C::generate(cr) };
+    let m: u64 = if big {
+        *r.pick(&[60000u64, 71583])
+    } else {
+        match r.below(6) {
+            0 => *r.pick(&[1u64, 2, 3, 5, 7]),
+            1 => *r.pick(&[1000u64, 1023, 1025, 4095, 4097]),
+            2 => 1 << r.range(1, 12), // powers of two as well
+            3 => 2 * r.range(1, 3000) + 1,
+            4 => 6 * r.range(1, 1000),
+            _ => r.range(1, 6000),
+        }
+    };
+    j.sh.hit(if m.is_power_of_two() { "bsgs.table.power_of_two" } else { "bsgs.table.not_power_of_two" });
+    let table = match vmon_core::catch(|| BabyStepGiantStep::<C>::new(&base, m)) {
+        Ok(t) => t,
+        Err(e) => {
+            j.inconclusive(format!("BabyStepGiantStep::new({}) panicked: {}", m, e));
+            return 0;
+        }
+    };
+    // keep the linear search below ~3000 giant steps
+    let cap = m.saturating_mul(3000);
+    let mut vals: Vec<(&'static str, u64)> = vec![("zero", 0), ("one", 1), ("m-1", m - 1), ("m", m), ("m+1", m + 1), ("2m+3", 2 * m + 3), ("m*m-1", m.saturating_mul(m) - 1), ("m*m", m.saturating_mul(m)), ("random", r.below(cap)), ("random", r.below(cap)), ("chunk", r.below(1 << 32))];
+    vals.retain(|(_, v)| *v <= cap);
+    let mut h = m;
+    for (name, v) in vals {
+        let pt = base.mul_by_scalar(&C::scalar_from_u64(v));
+        let cls = if v < m { "below_m" } else if v == m { "at_m" } else { "above_m" };
+        match vmon_core::catch(|| table.discrete_log(&pt)) {
+            Ok(got) => {
+                j.sh.hit(&format!("bsgs.value.{}", cls));
+                let mut want = v;
+                if broken() && v >= m && !m.is_power_of_two() {
+                    want = v + 1;
+                }
+                j.check("bsgs.discrete_log", got == want, || (format!("discrete_log(base^{}) = {} with a table of size {} ({})", v, got, m, name), json!({"base": hex(&to_bytes(&base)), "table_size": m, "value": v, "library": got})));
+            }
+            Err(e) => j.inconclusive(format!("discrete_log panicked (m = {}, v = {}): {}", m, v, e)),
+        }
+        h ^= v;
+    }
+    // decrypt_amount through such a table (generator h of the context)
+    if !big {
+        let m2 = *r.pick(&[1000u64, 1023, 3000, 4097, 6000]);
+        let t2 = BabyStepGiantStep::<C>::new(f.ctx.encryption_in_exponent_generator(), m2);
+        let (sk, pk) = keypair(cr);
+        let a = join32(r.below(m2 * 2000), r.below(m2 * 2000));
+        let (enc, _) = encrypt_amount(&f.ctx, &pk, Amount::from_micro_ccd(a), cr);
+        match vmon_core::catch(|| decrypt_amount(&t2, &sk, &enc).micro_ccd()) {
+            Ok(d) => j.check("bsgs.decrypt_amount", d == a, || (format!("decrypt(encrypt({})) = {} with a table of size {}", a, d, m2), json!({"amount": a, "table_size": m2, "secret_key": hex(&to_bytes(&sk)), "encrypted": enc_json(&enc)}))),
+            Err(e) => j.inconclusive(format!("decrypt_amount panicked with table size {}: {}", m2, e)),
+        }
+    }
+    h
 }
 
 fn case_chunks(j: &mut J, r: &mut Rng, cr: &mut CR) -> u64 {
@@ -756,7 +916,13 @@ pub fn run(ctx: &ChildCtx, sh: &mut Shard) {
             }
             5 | 6 => ("transfer", case_transfer(&mut j, &mut r, &mut cr, np)),
             7 | 8 => ("sec_to_pub", case_sec_to_pub(&mut j, &mut r, &mut cr, np)),
-            _ => ("chunks", case_chunks(&mut j, &mut r, &mut cr)),
+            _ => {
+                let a = case_chunks(&mut j, &mut r, &mut cr);
+                // one table of a benchmark size per shard, small tables otherwise
+                let b = case_bsgs(&mut j, &mut r, &mut cr, idx == 9);
+                let c = case_bsgs(&mut j, &mut r, &mut cr, false);
+                ("chunks+bsgs", a ^ b ^ c)
+            }
         };
         sh.hit(&format!("cases.{}", tag));
         sh.nontrivial(h ^ vmon_core::fnv(tag.as_bytes()));
